@@ -1,10 +1,10 @@
 (* C06 — every stored object is constructed once, destroyed once, never clobbered alive.
    Proved: what every operation constructs and destroys, for every parameter list
-   (C06_emplace_*, C06_destruct_*); the step invariant "held objects -> held objects" and the
+   (the C06_emplace_... and C06_destruct_... theorems); the step invariant "held objects -> held objects" and the
    balance over a whole life - construction, ANY valid history, destruction - for every list
    whose value types are non-trivially constructible exactly when non-trivially destructible
    (C06_step_turns_held_objects_into_held_objects, C06_whole_life_objects_balanced); the objects
-   of a ContiguousElement (C06_element_*).
+   of a ContiguousElement (the C06_element_... theorems).
    PARTIAL: erase with elements behind the erased ones on VaryingSize lists of non-trivial types
    (the recorded finding when source and target overlap), a no-duplicates statement over the
    whole event log, copy / move between vectors: correspondence (instrumented value types,
